@@ -548,7 +548,7 @@ class Interp(object):
         if s.orelse or any(isinstance(n, (ast.Break, ast.Continue, ast.Return)) for b in s.body for n in ast.walk(b)):
             raise Unsupported('loop contract on a loop with break/continue/return/else')
         self.used_loop_contracts.add(frame.fname)
-        E.prove(lc['invariant'](L), tag + ': invariant holds on entry')
+        E.prove_aux(lc['invariant'](L), tag + ': invariant holds on entry')
         for v in sorted(_assigned_names(s.body)):
             if v in L:
                 if isinstance(L[v], bool) or not isinstance(L[v], (int, SInt)):
@@ -561,10 +561,10 @@ class Interp(object):
             for y in self.gexec_block(s.body, frame):
                 ys.append(y)
                 yield y
-            E.prove(lc['invariant'](L), tag + ': invariant preserved by an arbitrary iteration')
+            E.prove_aux(lc['invariant'](L), tag + ': invariant preserved by an arbitrary iteration')
             if lc.get('variant') is not None:
                 v0, v1 = lc['variant'](before), lc['variant'](L)
-                E.prove(And(v0 >= 0, v1 < v0), tag + ': variant is non-negative and decreases (termination)')
+                E.prove_aux(And(v0 >= 0, v1 < v0), tag + ': variant is non-negative and decreases (termination)')
             if lc.get('iteration') is not None:
                 lc['iteration'](before, L, ys)
             raise PathDone('arbitrary iteration of ' + tag + ' checked')
@@ -751,7 +751,63 @@ class Interp(object):
         """Hook for loop contracts (invariants); None = unroll."""
         return None
 
+    def _for_range_contract(self, s, frame, lc):
+        """`for v in range(a, b, step)` checked against a loop contract (see _gwhile_contract):
+        ghost index i with v = a + step*i; invariant(locals, i) on entry (i = 0), preserved by an
+        arbitrary iteration (i -> i+1), assumed with i = n on exit. The step must be concrete on
+        the path; the bounds may be symbolic."""
+        E = engine()
+        L = frame.locals
+        tag = 'loop in %s' % frame.fname
+        if s.orelse or any(isinstance(n, (ast.Break, ast.Continue, ast.Return)) for b in s.body for n in ast.walk(b)):
+            raise Unsupported('loop contract on a loop with break/continue/return/else')
+        if not isinstance(s.target, ast.Name):
+            raise Unsupported('loop contract: loop target is not a simple name')
+        args = [self.eval(a, frame) for a in s.iter.args]
+        if len(args) == 1:
+            a, b, step = 0, args[0], 1
+        elif len(args) == 2:
+            (a, b), step = args, 1
+        else:
+            a, b, step = args
+        if isinstance(step, (SInt, SBool)):
+            step = E.concretize(step, what='range step')
+        if step == 0:
+            raise ValueError('range() arg 3 must not be zero')
+        span = (b - a) if step > 0 else (a - b)
+        k = abs(step)
+        n = sym.Max((span + k - 1) // k if k != 1 else span, 0)
+        self.used_loop_contracts.add(frame.fname)
+        var = s.target.id
+        E.prove_aux(lc['invariant'](L, 0), tag + ': invariant holds on entry')
+        for v in sorted(_assigned_names(s.body) - {var}):
+            if v in L:
+                if isinstance(L[v], bool) or not isinstance(L[v], (int, SInt)):
+                    raise Unsupported('loop contract: variable %s is not an integer' % v)
+                L[v] = E.fresh('%s.%s' % (frame.fname, v))
+        i = E.fresh('%s.#iteration' % frame.fname, 0, None)
+        if bool(i < n):
+            # an arbitrary iteration
+            E.assume(lc['invariant'](L, i))
+            L[var] = a + step * i
+            before = dict(L)
+            self.exec_block(s.body, frame)
+            E.prove_aux(lc['invariant'](L, i + 1), tag + ': invariant preserved by an arbitrary iteration')
+            if lc.get('iteration') is not None:
+                lc['iteration'](before, L, i)
+            raise PathDone('arbitrary iteration of ' + tag + ' checked')
+        # exit: all n iterations done
+        E.assume(i == n)
+        E.assume(lc['invariant'](L, n))
+        if bool(n > 0):
+            L[var] = a + step * (n - 1)
+        if lc.get('exit') is not None:
+            lc['exit'](L, n)
+
     def x_For(self, s, frame):
+        if (frame.fname in self.loop_contracts and engine().mode == 'symbolic' and isinstance(s.iter, ast.Call)
+                and isinstance(s.iter.func, ast.Name) and s.iter.func.id == 'range' and not s.iter.keywords):
+            return self._for_range_contract(s, frame, self.loop_contracts[frame.fname])
         it = self.eval(s.iter, frame)
         for item in self.iterate(it):
             self.assign(s.target, item, frame)
